@@ -216,6 +216,33 @@ def render(items, interp=lambda e, info: "#" + _interp_name(e)):
     return " ".join(out)
 
 
+def flatten(items, N, _depth=0):
+    """items with every interpolated local that is itself `let x = quote!(..)` replaced by that template's items
+    (a token stream interpolated as a whole stands for its tokens)"""
+    out = []
+    for it in items:
+        if it[0] == "interp" and not (it[2] or {}).get("rep") and _depth < 4:
+            e = strip(it[1])
+            inner = None
+            if e.get("k") == "Path" and e.get("r") == "local" and e.get("id") in N.defs:
+                origin, path, _pat = N.defs[e["id"]]
+                if origin[0] == "let" and not path and e["id"] not in N.mut:
+                    init = strip_keep_block(origin[1])
+                    if is_template_block(init):
+                        inner = parse_template(init)
+            if inner is not None:
+                out.extend(flatten(inner, N, _depth + 1))
+            else:
+                out.append(it)
+        elif it[0] == "group":
+            out.append(("group", it[1], flatten(it[2], N, _depth)))
+        elif it[0] == "rep":
+            out.append(("rep", flatten(it[1], N, _depth), it[2], it[3]) if len(it) > 3 else ("rep", flatten(it[1], N, _depth), it[2]))
+        else:
+            out.append(it)
+    return out
+
+
 def render_pos(items):
     """render with interpolations numbered by first occurrence (#0, #1, ..): independent of local variable names"""
     seen = {}
